@@ -14,8 +14,8 @@ TECHNIQUE = "Hypothesis-generated operation lists and tables: reference implemen
             "snapshots, order/repeat metamorphic relation on one dispatcher, validator/executor agreement"
 LEVEL_TEXT = ("Valid operation lists (1-4 of the 8 non-summary operations, optional parameters present or omitted) are "
               "run by one Dispatcher over 1-3 tables in a generated order with repeats: each result must equal the "
-              "result of a reference implementation written from the operations' documentation (6 operations; the "
-              "other two are covered by the metamorphic clauses), must not depend on processing order or repetition, "
+              "result of a reference implementation written from the operations' documentation (all 8 operations; "
+              "split_rows as the final operation, merge durations not modelled), must not depend on processing order or repetition, "
               "and must leave the input table and the operation parameters unchanged; lists accepted by the "
               "RemodelerValidator must run to completion on tables holding the named columns (documented errors for "
               "missing columns pass), and every invalid list must be reported.")
@@ -137,7 +137,7 @@ def operation(draw):
             feats.append(OPT_OMITTED)
     else:
         ev = {"onset_source": draw(st.sampled_from([[0], [0.5, "duration"], ["duration"]])),
-              "duration": draw(st.sampled_from([[0], [0.25], ["duration"]]))}
+              "duration": draw(st.sampled_from([[0], [0.25], ["duration"], [0.25, "duration"], [0.5, 0.25]]))}
         if draw(st.booleans()):
             ev["copy_columns"] = list(draw(st.sets(st.sampled_from(["resp", "val"]), min_size=1, max_size=2)))
         else:
@@ -328,6 +328,65 @@ def ref_apply(o, cols, rows):
             for r in out:
                 r["duration"] = Ellipsis     # not compared: the arithmetic on durations is not modelled
         return cols, out
+    if k == "split_rows":
+        if "onset" not in cols or "duration" not in cols:
+            raise ValueError("documented")
+        if any(v is Ellipsis for r in rows for v in r.values()):
+            raise Skip()
+        anchor = p["anchor_column"]
+        newc = list(cols) + ([anchor] if anchor not in cols else [])
+
+        def num(v):
+            if v is None:
+                return None
+            try:
+                return float(v)
+            except (TypeError, ValueError):
+                return None
+        for ev in p["new_events"].values():     # missing columns are documented errors whatever the rows hold
+            for src in list(ev["onset_source"]) + list(ev["duration"]):
+                if isinstance(src, str) and src not in cols:
+                    raise TypeError("documented")
+            for c in ev.get("copy_columns", []):
+                if c not in cols:
+                    raise KeyError("documented")
+        out = [] if p["remove_parent_row"] else [dict({c: r.get(c) for c in newc}) for r in rows]
+        for r in out:
+            r["onset"] = num(r["onset"])
+        for ev_name, ev in p["new_events"].items():
+            for r in rows:
+                onset = num(r["onset"])
+                for src in ev["onset_source"]:
+                    if isinstance(src, str):
+                        if src not in cols:
+                            raise TypeError("documented")
+                        add = num(r[src])
+                        onset = None if onset is None or add is None else onset + add
+                    else:
+                        onset = None if onset is None else onset + src
+                if onset is None:
+                    continue
+                dur = 0.0
+                for src in ev["duration"]:
+                    if isinstance(src, str):
+                        if src not in cols:
+                            raise TypeError("documented")
+                        add = num(r[src])
+                        dur = None if dur is None or add is None else dur + add
+                    else:
+                        dur = None if dur is None else dur + src
+                nr = {c: None for c in newc}
+                nr["onset"], nr["duration"], nr[anchor] = onset, dur, ev_name
+                for c in ev.get("copy_columns", []):
+                    if c not in cols:
+                        raise KeyError("documented")
+                    nr[c] = r[c]
+                out.append(nr)
+        # rows are returned in onset order; the order of rows sharing an onset is not specified
+        out.sort(key=lambda r: (r["onset"] is None, r["onset"] if r["onset"] is not None else 0.0))
+        for r in out:
+            r["__ties_unordered__"] = True
+        return newc, out
     raise Skip()
 
 
@@ -348,6 +407,28 @@ def compare(cols, rows, df):
         return f"columns {list(df.columns)} expected {cols}"
     if len(df) != len(rows):
         return f"{len(df)} rows expected {len(rows)}"
+    if any(r.get("__ties_unordered__") for r in rows) and "onset" in cols:
+        # compare as multisets per onset value
+        def keyrow(vals):
+            return tuple(str(ref_value(v)) if not isinstance(ref_value(v), float) else repr(round(ref_value(v), 9))
+                         for v in vals)
+        exp = sorted(keyrow([(float(r[c]) if isinstance(r[c], (int, float)) and not isinstance(r[c], bool) else r[c])
+                             for c in cols]) for r in rows)
+        got = []
+        for i in range(len(df)):
+            vals = []
+            for c in cols:
+                v = df[c].iloc[i]
+                v = v.item() if hasattr(v, "item") else v
+                vals.append(float(v) if isinstance(v, (int, float)) and not isinstance(v, bool) else v)
+            got.append(keyrow(vals))
+        onsets = [float(x) for x in df["onset"]]
+        if onsets != sorted(onsets):
+            return f"rows not in onset order: {onsets}"
+        if sorted(got) != exp:
+            diff = [g for g in sorted(got) if g not in exp][:2], [e for e in exp if e not in sorted(got)][:2]
+            return f"rows differ (as a multiset): got-only {diff[0]} expected-only {diff[1]}"
+        return None
     for i, r in enumerate(rows):
         for c in cols:
             got = df[c].iloc[i]
@@ -367,7 +448,7 @@ def frame_same(snap, df):
         old.astype(object).where(old.notna(), None).equals(df.astype(object).where(df.notna(), None))
 
 
-DOCUMENTED = (KeyError, ValueError)
+DOCUMENTED = (KeyError, ValueError, TypeError)
 
 
 def structure_changing(ops):
@@ -431,7 +512,9 @@ def oracle_run(case):
         exp_exc = None
         covered = True
         try:
-            for o in ops:
+            for idx, o in enumerate(ops):
+                if o["operation"] == "split_rows" and idx != len(ops) - 1:
+                    raise Skip()      # the reference models split_rows as the final operation only (tie order)
                 cols, rows = ref_apply(o, cols, rows)
         except Skip:
             covered = False
